@@ -2,6 +2,7 @@
 package main
 
 import (
+	"encoding/json"
 	"fmt"
 	"os"
 
@@ -25,5 +26,26 @@ func main() {
 		fmt.Fprintf(os.Stderr, "no check for %s\n", id)
 		os.Exit(2)
 	}
-	os.Exit(f(tier, os.Args[3:]))
+	args := os.Args[3:]
+	if tier == "--replay" {
+		if len(args) < 1 {
+			fmt.Fprintln(os.Stderr, "usage: h <ID> --replay <file>")
+			os.Exit(2)
+		}
+		var rec struct{ Property, Sig, Tier string }
+		data, err := os.ReadFile(args[0])
+		if err == nil {
+			err = json.Unmarshal(data, &rec)
+		}
+		if err != nil || rec.Sig == "" || rec.Property != id {
+			fmt.Fprintf(os.Stderr, "%s is not a replay file of %s: %v\n", args[0], id, err)
+			os.Exit(2)
+		}
+		vf.ReplaySig, vf.ReplayFile = rec.Sig, args[0]
+		tier, args = rec.Tier, nil
+		if tier == "" {
+			tier = "quick"
+		}
+	}
+	os.Exit(f(tier, args))
 }
